@@ -1,7 +1,142 @@
-From Coq Require Import ZArith List Bool.
+(* C13 - property theorems only.  Each is closed by [exact lemma]; Print Assumptions beneath.
+   Model (coq/Model/C13.v): mol_consensus = Molecule.get_consensus, frag_consensus = Fragment.get_consensus,
+   pick_best = sequtils.pick_best_base_call, window/read_dict = get_consensus_dictionaries/read_to_consensus_dict.
+   [skip] is the molecule's skip test: skip_fixed = repaired rule (fixes/C13-D16.patch), skip_head = /repo HEAD rule.
+   frag_call skip ds f k = the one call fragment f contributes at key k = (contig, refpos) (None = no vote: skipped,
+   ValueError, not covered, or 'N'); votes skip ds fs k b = number of fragments of fs whose call at k is b.
+   pre fs = every fragment has the two-slot reads list and every query base is one of ACGTN. *)
+From Coq Require Import ZArith List Bool Permutation.
 Import ListNotations.
-From SCMO Require Import Model.C13 Proofs.C13.
+From SCMO Require Import Lib.Val Model.C13 Proofs.C13.
 Open Scope Z_scope.
-Theorem C13_pick_higher : forall b1 q1 b2 q2, 0 <= q2 < q1 -> pick_best [Some (b1, q1); Some (b2, q2)] = (b1, q1).
-Proof. exact pick2_hi. Qed.
+
+(* the consensus base at k is b iff b is called by strictly more fragments than every other base (and is not N) *)
+Theorem C13_majority : forall skip ds fs out k b, pre fs = true -> mol_consensus skip ds fs = Ok out ->
+  (dget k out = Some b <->
+   In b acgt /\ forall b', In b' acgt -> b' <> b -> votes skip ds fs k b' < votes skip ds fs k b).
+Proof. exact majority_pre. Qed.
+Print Assumptions C13_majority.
+
+(* same statement as one equation with the brute-force vote [majority] (find over ACGT of the strict maximum) *)
+Theorem C13_consensus_is_majority : forall skip ds fs out k, bases_ok fs -> mol_consensus skip ds fs = Ok out ->
+  dget k out = majority skip ds fs k.
+Proof. exact consensus_is_majority. Qed.
+Print Assumptions C13_consensus_is_majority.
+
+(* under the precondition the call returns (no exception) *)
+Theorem C13_total : forall skip ds fs, pre fs = true -> exists out, mol_consensus skip ds fs = Ok out.
+Proof. exact total_pre. Qed.
+Print Assumptions C13_total.
+
+(* outcome without any precondition: IndexError exactly when a fragment that is not skipped has a reads list
+   shorter than two; ValueError never escapes *)
+Theorem C13_outcome : forall skip ds fs,
+  (mol_consensus skip ds fs = IndexError <->
+   exists f, In f fs /\ skip ds f = false /\ frag_consensus ds f = IndexError) /\
+  mol_consensus skip ds fs <> ValueError.
+Proof. exact outcome_iff. Qed.
+Print Assumptions C13_outcome.
+Theorem C13_index_error_iff_short : forall ds f, frag_consensus ds f = IndexError <-> (length f < 2)%nat.
+Proof. exact frag_index_error. Qed.
+Print Assumptions C13_index_error_iff_short.
+
+(* a tie for the highest count is absent from the consensus *)
+Theorem C13_tie_absent : forall skip ds fs out k b1 b2, bases_ok fs -> mol_consensus skip ds fs = Ok out ->
+  In b1 acgt -> In b2 acgt -> b1 <> b2 -> votes skip ds fs k b1 = votes skip ds fs k b2 ->
+  (forall b, In b acgt -> votes skip ds fs k b <= votes skip ds fs k b1) ->
+  dget k out = None.
+Proof. exact tie_absent. Qed.
+Print Assumptions C13_tie_absent.
+
+(* a position where no fragment has a non-N call (covered only by N, or not covered) is absent *)
+Theorem C13_onlyN_absent : forall skip ds fs out k, bases_ok fs -> mol_consensus skip ds fs = Ok out ->
+  (forall f, In f fs -> frag_call skip ds f k = None) -> dget k out = None.
+Proof. exact no_votes_absent. Qed.
+Print Assumptions C13_onlyN_absent.
+Theorem C13_N_is_no_call : forall skip ds f k, frag_call skip ds f k <> Some bN.
+Proof. exact frag_call_not_N. Qed.
+Print Assumptions C13_N_is_no_call.
+
+(* the vote table the code accumulates (consensii) holds exactly the declarative votes; the N slot stays 0 *)
+Theorem C13_table_is_votes : forall skip ds fs t k j, pre fs = true -> mol_table skip ds fs [] = Ok t -> (j < 5)%nat ->
+  vnth j (tget k t) = votes skip ds fs k (index_base j) /\ vnth 4 (tget k t) = 0.
+Proof. exact table_is_votes. Qed.
+Print Assumptions C13_table_is_votes.
+
+(* each fragment contributes exactly one call per position it has a call at, none elsewhere:
+   the total of the vote vector at k is the number of fragments with a call at k *)
+Theorem C13_one_call_per_fragment : forall skip ds fs t k, bases_ok fs -> mol_table skip ds fs [] = Ok t ->
+  vsum (tget k t) = Z.of_nat (length (filter (has_call skip ds k) fs)).
+Proof. exact one_call_per_fragment. Qed.
+Print Assumptions C13_one_call_per_fragment.
+
+(* insertion order is irrelevant (no precondition: also the exception outcome is order independent).
+   res_equiv (Ok x) (Ok y) = forall k, dget k x = dget k y *)
+Theorem C13_perm : forall skip ds fs fs', Permutation fs fs' ->
+  res_equiv (mol_consensus skip ds fs) (mol_consensus skip ds fs').
+Proof. exact perm_invariant. Qed.
+Print Assumptions C13_perm.
+
+(* duplicating every fragment (in any interleaving) leaves the consensus unchanged *)
+Theorem C13_double : forall skip ds fs fs2, Permutation fs2 (fs ++ fs) ->
+  res_equiv (mol_consensus skip ds fs2) (mol_consensus skip ds fs).
+Proof. exact double_invariant. Qed.
+Print Assumptions C13_double.
+
+(* pick_best_base_call: highest quality wins; equal best quality with different bases is ('N', 0); no calls is ('N', 0) *)
+Theorem C13_pick_unique : forall cs b q, calls_nonneg cs -> In (Some (b, q)) cs ->
+  (forall b' q', In (Some (b', q')) cs -> q' <= q /\ (q' = q -> b' = b)) -> pick_best cs = (b, q).
+Proof. exact pick_unique. Qed.
+Print Assumptions C13_pick_unique.
+Theorem C13_pick_tie : forall cs b1 b2 q, calls_nonneg cs -> In (Some (b1, q)) cs -> In (Some (b2, q)) cs -> b1 <> b2 ->
+  (forall b' q', In (Some (b', q')) cs -> q' <= q) -> pick_best cs = (bN, 0).
+Proof. exact pick_tie. Qed.
+Print Assumptions C13_pick_tie.
+Theorem C13_pick_none : forall cs, (forall c, In c cs -> c = None) -> pick_best cs = (bN, 0).
+Proof. exact pick_none. Qed.
+Print Assumptions C13_pick_none.
+Theorem C13_pick_comm : forall c1 c2, calls_nonneg [c1; c2] -> pick_best [c1; c2] = pick_best [c2; c1].
+Proof. exact pick2_comm. Qed.
+Print Assumptions C13_pick_comm.
+Theorem C13_pick_higher : forall b1 q1 b2 q2, 0 <= q2 < q1 ->
+  pick_best [Some (b1, q1); Some (b2, q2)] = (b1, q1) /\ pick_best [Some (b2, q2); Some (b1, q1)] = (b1, q1).
+Proof. exact pick2_hi_both. Qed.
 Print Assumptions C13_pick_higher.
+
+(* what a mate contributes to a fragment's call: its aligned (refpos, base, quality) triples inside the dove-safe window *)
+Theorem C13_read_call : forall w r d c p b q, read_dict w (Some r) = Ok d -> NoDup (map call_pos (r_calls r)) ->
+  (dget (c, p) d = Some (b, q) <-> c = r_contig r /\ in_win w p = true /\ In (p, b, q) (r_calls r)).
+Proof. exact read_dict_get. Qed.
+Print Assumptions C13_read_call.
+
+(* the boolean specification evaluated by the correspondence check on implementation outputs is implied by the model *)
+Theorem C13_specb_sound : forall skip ds fs out, bases_ok fs -> mol_consensus skip ds fs = Ok out -> specb skip ds fs out = true.
+Proof. exact specb_sound. Qed.
+Print Assumptions C13_specb_sound.
+
+(* the repaired skip rule never drops a fragment unless dove_safe is requested, and then exactly the unpaired ones *)
+Theorem C13_skip_rule : forall f, skip_fixed false f = false /\ skip_fixed true f = negb (has_R1 f && has_R2 f).
+Proof. exact skip_rule. Qed.
+Print Assumptions C13_skip_rule.
+
+(* D16: with /repo HEAD's rule (dove_safe and not R2 or not R1) an R2-only fragment never has a call, and the
+   consensus differs from the strict majority of all fragments' calls *)
+Theorem C13_head_r2_only_no_call : forall ds r k, frag_call skip_head ds [None; Some r] k = None.
+Proof. exact head_r2_only_no_call. Qed.
+Print Assumptions C13_head_r2_only_no_call.
+Theorem C13_head_refuted :
+  exists fs out, pre fs = true /\ mol_consensus skip_head false fs = Ok out /\
+                 majority skip_fixed false fs (0, 20) = Some bC /\ dget (0, 20) out = Some bA.
+Proof. exact head_refuted. Qed.
+Print Assumptions C13_head_refuted.
+
+(* non-vacuity: a molecule satisfying [pre] with a tie (absent), a 2:1 majority, an N-only position, a mate
+   quality tie, a dove-safe run, and a one-slot fragment raising IndexError *)
+Example C13_example :
+  pre ex_mol = true /\ mol_consensus skip_fixed false ex_mol = Ok [((0, 21), bG)] /\
+  mol_consensus skip_fixed true ex_mol = Ok [((0, 21), bT)] /\
+  votes skip_fixed false ex_mol (0, 20) bA = 1 /\ votes skip_fixed false ex_mol (0, 20) bC = 1 /\
+  votes skip_fixed false ex_mol (0, 21) bG = 2 /\ votes skip_fixed false ex_mol (0, 21) bT = 1 /\
+  mol_consensus skip_fixed false (ex_mol ++ [[ex_rd false []]]) = IndexError.
+Proof. exact ex_mol_facts. Qed.
+Print Assumptions C13_example.
